@@ -85,7 +85,10 @@ def one(name):
                     res[name] = {"kind": "neutralised", "property": prop, "exit": rc, "by": neut.get("commit"),
                                  "ok": rc in (0, 1), "rules": rules[:6]}
                     continue
-                res[name] = {"kind": "breaking", "property": prop, "exit": rc, "caught": rc == 1, "rules": rules[:6]}
+                seeds = [int(m.group(1)) % 1000000 for l in lines for m in [re.search(r"seed=(\d+)", l)] if m]
+                runs = [int(m.group(1)) for l in lines for m in [re.search(r"runs=(\d+)", l)] if m]
+                res[name] = {"kind": "breaking", "property": prop, "exit": rc, "caught": rc == 1, "rules": rules[:6],
+                             "first_seed_offset": min(seeds) if seeds else None}
                 if rc != 1:
                     bad += 1
         finally:
